@@ -357,7 +357,8 @@ func (r *orderRel) dataFiles() map[string][]byte {
 			"isdeep":  flags(func(v *uval) bool { return v.Deep }),
 			"isfloat": flags(func(v *uval) bool { return v.Float }),
 			"isintk":  flags(func(v *uval) bool { return v.IntK }),
-			"isbig":   flags(func(v *uval) bool { return v.Big })}),
+			"isbig":   flags(func(v *uval) bool { return v.Big }),
+			"ismissing": flags(func(v *uval) bool { return v.val.IsMissing() })}),
 		"od_am.json": js(r.cmp["am"]), "od_an.json": js(r.cmp["an"]),
 		"od_dm.json": js(r.cmp["dm"]), "od_dn.json": js(r.cmp["dn"]),
 		"od_fnm.json": js(r.fn["m"]), "od_fnn.json": js(r.fn["n"]),
